@@ -190,6 +190,20 @@ theorem c17_cli_run_load_error (w : CliWorld) (strict policyset : Bool) (path : 
     cliRun .validate w strict policyset path reqArg = (if PyX.isSubclass e.cls "RuntimeError" then .ok EXIT_ENV else .error e) := by
   simp [cliRun, cliLoadValidate, hreq, hload]
 
+/-! non-vacuity: a world in which a two-child set read from STDIN has one conforming and one non-conforming child -/
+def exampleWorld : CliWorld :=
+  { openRead := fun _ => .error { cls := "FileNotFoundError" }, stdinRead := .ok (.str "T"),
+    parsers := { jsonLoads := fun _ => .ok (.dict [("policies", .list [.int 1, .int 2])]), importYaml := .ok PyVal.none,
+                 yamlSafeLoad := fun _ => .ok PyVal.none },
+    parseRequireAttrs := fun _ => .ok (.dict []),
+    validate := fun d => if PyVal.pyEq d (.int 1) then .ok PyVal.none else .error { cls := "ValidationError" },
+    lintPolicy := fun _ _ => .ok (.list []), lintSet := fun _ _ => .ok (.list [.dict []]) }
+
+example : cliRun .validate exampleWorld false true Option.none PyVal.none = .ok EXIT_SCHEMA_ERRORS := by rfl
+example : cliRun .check exampleWorld true false Option.none PyVal.none = .ok EXIT_SCHEMA_ERRORS := by rfl
+example : cliRun .lint exampleWorld true true Option.none PyVal.none = .ok EXIT_LINT_ERRORS := by rfl
+example : cliRun .lint exampleWorld true true (some "p.json") PyVal.none = .error { cls := "FileNotFoundError" } := by rfl
+
 /-- `main` hands the command function's outcome through: its status (an `int`) is the process status, an exception that escapes
     the command function escapes `main`; no subcommand is EXIT_USAGE -/
 theorem c17_cli_main (buildParser : PyX.Res) (parseArgs callFunc : PyVal → PyX.Res) (argv parser args : PyVal)
